@@ -29,19 +29,19 @@ type notBridgeable struct{ why string }
 func bridgeFail(format string, a ...any) { panic(notBridgeable{fmt.Sprintf(format, a...)}) }
 
 var knownNative = map[string]reflect.Type{
-	"time.Time":                                    reflect.TypeOf(time.Time{}),
-	"math/big.Int":                                 reflect.TypeOf(big.Int{}),
-	"encoding/asn1.BitString":                      reflect.TypeOf(asn1.BitString{}),
-	"encoding/asn1.ObjectIdentifier":               reflect.TypeOf(asn1.ObjectIdentifier{}),
-	"encoding/asn1.RawValue":                       reflect.TypeOf(asn1.RawValue{}),
-	"encoding/asn1.RawContent":                     reflect.TypeOf(asn1.RawContent{}),
-	"encoding/asn1.Enumerated":                     reflect.TypeOf(asn1.Enumerated(0)),
-	"encoding/asn1.Flag":                           reflect.TypeOf(asn1.Flag(false)),
-	"crypto/x509/pkix.AttributeTypeAndValue":       reflect.TypeOf(pkix.AttributeTypeAndValue{}),
+	"time.Time":                                     reflect.TypeOf(time.Time{}),
+	"math/big.Int":                                  reflect.TypeOf(big.Int{}),
+	"encoding/asn1.BitString":                       reflect.TypeOf(asn1.BitString{}),
+	"encoding/asn1.ObjectIdentifier":                reflect.TypeOf(asn1.ObjectIdentifier{}),
+	"encoding/asn1.RawValue":                        reflect.TypeOf(asn1.RawValue{}),
+	"encoding/asn1.RawContent":                      reflect.TypeOf(asn1.RawContent{}),
+	"encoding/asn1.Enumerated":                      reflect.TypeOf(asn1.Enumerated(0)),
+	"encoding/asn1.Flag":                            reflect.TypeOf(asn1.Flag(false)),
+	"crypto/x509/pkix.AttributeTypeAndValue":        reflect.TypeOf(pkix.AttributeTypeAndValue{}),
 	"crypto/x509/pkix.RelativeDistinguishedNameSET": reflect.TypeOf(pkix.RelativeDistinguishedNameSET{}),
-	"crypto/x509/pkix.RDNSequence":                 reflect.TypeOf(pkix.RDNSequence{}),
-	"crypto/x509/pkix.AlgorithmIdentifier":         reflect.TypeOf(pkix.AlgorithmIdentifier{}),
-	"crypto/x509/pkix.Extension":                   reflect.TypeOf(pkix.Extension{}),
+	"crypto/x509/pkix.RDNSequence":                  reflect.TypeOf(pkix.RDNSequence{}),
+	"crypto/x509/pkix.AlgorithmIdentifier":          reflect.TypeOf(pkix.AlgorithmIdentifier{}),
+	"crypto/x509/pkix.Extension":                    reflect.TypeOf(pkix.Extension{}),
 }
 
 func namedKey(t types.Type) string {
@@ -56,7 +56,9 @@ type bridge struct {
 	cache map[types.Type]reflect.Type
 }
 
-func newBridge(mode bridgeMode) *bridge { return &bridge{mode: mode, cache: map[types.Type]reflect.Type{}} }
+func newBridge(mode bridgeMode) *bridge {
+	return &bridge{mode: mode, cache: map[types.Type]reflect.Type{}}
+}
 
 func exported(name string) bool {
 	for _, r := range name {
